@@ -268,16 +268,18 @@ func runScenario(spec scenarioSpec) *observation {
 	if spec.Mode == "queue" {
 		wait = 20 * time.Second
 	}
+	// (The send lock is process-wide and, since fix-D42, process() takes it at the top of every loop: with
+	// dozens of clients in this one process a queue consumer can be slow to get its turn, hence the patience.)
 	// Attempts continue until one pack has arrived; giving up needs at least 10 attempts spread over
 	// at least 20 s (a refusal period of the script may still be running: the attempts themselves are
 	// the connection failures it is waiting for), so a loaded machine cannot cause a false alarm.
 	closerStart := time.Now()
 	attempts := 0
-	for seq := 0; !obs.Recovered && seq < 400; seq++ {
+	for seq := 0; !obs.Recovered; seq++ {
 		if attempts >= 10 && time.Since(closerStart) > 20*time.Second && srv.scriptDone() {
 			break
 		}
-		if time.Since(closerStart) > 150*time.Second {
+		if time.Since(closerStart) > 240*time.Second {
 			break
 		}
 		rec := sc.doSend(r, spec.Senders, seq, 0)
